@@ -2,6 +2,8 @@
 
 Segments of the model (specs/fs/FsConfine.tla) and their concrete spelling:
    H dec evil sub zz   plain words (H: a genuine character map of the package; dec/evil/sub exist in the scratch tree)
+   sib     the look-alike sibling of the site's base directory: "res_evil" (next to res) at the CMap sites,
+           "out_evil" (next to out) at the image site - its name starts with the base directory's name
    dd ..    d .    e (empty)    nul  "ev<NUL>il"    long  300 x "x"
 An absolute name is spelled with the scratch root in front (so that everything stays inside the scratch tree).
 """
@@ -15,14 +17,16 @@ SEG = {"H": "H", "dec": "dec", "evil": "evil", "sub": "sub", "zz": "zz", "dd": "
        "nul": "ev\0il", "long": "x" * 300}
 
 # scratch tree shared by all CMap cases (relative to the scratch root)
-TREE_DIRS = ["res", "res/sub", "out", "out/sub", "dec"]
+SIB = {"cmap": "res_evil", "image": "out_evil"}
+TREE_DIRS = ["res", "res/sub", "out", "out/sub", "dec", "res_evil", "out_evil"]
 TREE_PICKLES = ["res/evil.pickle.gz", "res/sub/evil.pickle.gz", "dec/evil.pickle.gz", "dec/H.pickle.gz",
+                "res_evil/evil.pickle.gz", "out_evil/evil.pickle.gz",
                 "res/to-unicode-Adobe-evil.pickle.gz"]
 
 
-def spell(name, root):
-    """model name {abs, segs} -> the string placed in the document"""
-    s = "/".join(SEG[x] for x in name["segs"])
+def spell(name, root, site="cmap"):
+    """model name {abs, segs} -> the string placed in the document (site: "cmap" or "image")"""
+    s = "/".join(SIB[site] if x == "sib" else SEG[x] for x in name["segs"])
     if name["abs"]:
         return root.rstrip("/") + "/" + s
     if s.startswith("/"):                      # an empty first segment makes the spelling absolute as well
